@@ -15,16 +15,16 @@ T = {
  "C07": ("theorems: step is a bijection, non-zero states form one cycle of length 2^n−1 (primitive characteristic polynomial, Pratt certificates); tie: real step on all n basis states + linearity; falsifier: matrix rank / minimal polynomial / short cycles of the real engine", "Lean proof (order of x mod P, Lucas/Pratt certificates) + correspondence"),
  "C08": ("theorems: no constructor yields the zero state, zero seed remapped as documented, other seeds verbatim, fuel-3 termination of from_seed↔seed_from_u64; tie: every constructor on zero seeds/zero blocks/specials", "Lean proof + model/code correspondence"),
  "C09": ("theorems: seed_from_u64 = from_seed∘expansion, from_rng consumes exactly the seed bytes, try_from_rng = from_rng or the source's error; tie: constructors with scripted (failing) sources and consumption counters", "Lean proof + model/code correspondence"),
- "C10": ("theorems: clone is the identity, == implies identical futures for every operation sequence (incl. Hc128Rng's partial ==); tie: clone/eq pairs with continuations", "Lean proof (congruence by induction over op lists) + correspondence"),
+ "C10": ("theorems: clone is the identity, == implies identical futures for every operation sequence (incl. Hc128Rng's partial ==); tie: clone/clone_from/eq pairs with continuations, the whole PartialEq surface (==, !=, symmetric, through references), near misses", "Lean proof (congruence by induction over op lists) + correspondence"),
  "C11": ("theorems: de(ser s) = s for every serialisable state; tie: bincode image vs model at random points of random histories, restored twins", "Lean round-trip proof + model/code correspondence"),
  "C12": ("theorems: model of JitterRng = documented collection procedure on the readings; tie: absolute on scripted timers incl. number of readings consumed", "Lean proof + model/code correspondence"),
  "C13": ("theorems: testTimer = ok r → 1 ≤ r ≤ 128 ∧ r·bitlen(mean) ≥ 128 ∧ no failure condition; error e → condition e holds; tie: scripted timers for every table row/threshold/error class + independent property oracle on the real result", "Lean proof (case analysis of the verdict) + correspondence + implementation oracle"),
  "C14": ("theorems: every checked operation of the model succeeds (Checked = Model); tie: all operations under catch_unwind in an overflow-checked build with hostile inputs", "Lean proof (checked arithmetic never fails) + correspondence in overflow-checked build"),
- "C15": ("theorems: lfsr bijective in the pool and injective in the time value, rotation and stir bijective, for all 2^64 values; tie: hooks on basis vectors/random pairs, rank of the real maps", "Lean proof (GF(2)-linearity + explicit inverses) + correspondence through hooks"),
+ "C15": ("theorems: lfsr bijective in the pool and injective in the time value, rotation and stir bijective, for all 2^64 values; tie: hooks on basis vectors/random pairs, rank and special points of the real maps, and the whole collection (next_u64 on a fixed timer script) as a map of the pool", "Lean proof (GF(2)-linearity + explicit inverses) + correspondence through hooks"),
  "C16": ("theorems: halves of one collected value, fresh collections, clone never reuses a half; full statement false for fill_bytes(1..4) (known finding, negation proved); tie: twins on identical timers with call counts", "Lean proof (_partial + negation witness) + correspondence"),
  "C17": ("theorem (thin): Debug text is a function of type and read position; tie: real {:?}/{:#?} vs template, two seeds same history, no state words in text", "Lean structural theorem + correspondence"),
  "C18": ("theorem: checked = unchecked semantics (C14) so profiles cannot differ in meaning; tie: same corpus in 2 (quick) / 8 (thorough) build configurations vs model; other targets not covered (partial)", "Lean proof + multi-configuration correspondence"),
- "C19": ("theorem: frame property of a product of model instances under any schedule; tie: interleaved multi-instance runs on 2–8 OS threads vs solo runs; real scheduler nondeterminism sampled (partial)", "Lean frame theorem + interleaving correspondence"),
+ "C19": ("theorem: frame property of a product of model instances under any schedule; tie: interleaved multi-instance runs on 1–8 OS threads vs solo runs in fresh processes, JitterRng instances on stuck-test boundaries sharing a thread, overlapping constructions; structural correspondence: no process-wide / thread-local mutable state beyond the pinned source's; real scheduler nondeterminism sampled (partial)", "Lean frame theorem + interleaving correspondence"),
 }
 EXT = {"C01", "C04", "C05", "C06", "C07", "C08", "C09"}
 EXT_TEXT = (" In addition the translated functions of rand_xoshiro / rand_xorshift (next_u32, next_u64, fill_bytes, jump, long_jump, "
